@@ -201,6 +201,8 @@ def evolve(rnd, g, ir, compatible_only):
             return ir, st
         elif st == "kind_change" and prims:
             h, k, n = rnd.choice(prims)
+            if isinstance(h, list):
+                continue          # inside a union the new array could be a second array branch: not a valid union
             h[k] = {"k": "array", "items": {"k": "prim", "name": n["name"]}}
             if isinstance(h, dict) and "hasdef" in h:
                 h["hasdef"] = False
